@@ -262,6 +262,21 @@ Example C19_standby_stakers_are_refused :
   is_frozen r.1 2 = false /\ (r_votes <$> reqs r.1 !! 1) = Some [].
 Proof. vm_compute. repeat split; reflexivity. Qed.
 
+(* repeat offence: validator 4 is convicted at height 6, releases itself one day later, is elected
+   again, and is convicted a second time at height 11: the second verdict writes a fresh frozen
+   byzantine-fault record (the released one is replaced), its stake/unstake/withdraw and vote are
+   refused again, and it drops out of the active set at the next EndBlock *)
+Example C19_repeat_offender_is_frozen_again :
+  let s1 := (run cfg50 (init_with q4) (guilty_history ++
+     [OBegin 7 105 []; OEnd q4 []; OBegin 8 86506 []; ORelease 4; OEnd q4 []; OBegin 9 86521 []; OEnd q4 []])).1 in
+  let r2 := run cfg50 s1 [OBegin 11 86551 []; OAllege 2 1 4 11; OVote 2 1 YES; OVote 2 2 YES; OEnd q4 [];
+     OBegin 12 86566 []; OStake 0 4 true 500; OStake 1 4 true (-500); OStake 2 4 true 0; OVote 2 4 YES; OEnd q4 []] in
+  is_frozen s1 4 = false /\ is_active s1 4 = true /\
+  (l_fh <$> susp r2.1 !! 4) = Some 11 /\ byz_frozen_m r2.1 4 = true /\ is_active r2.1 4 = false /\
+  filter (fun e => match e with EvTx _ | EvVerdict _ _ _ _ _ _ _ => true | _ => false end = true) r2.2 =
+    [EvTx true; EvTx true; EvTx true; EvVerdict 2 4 GUILTY 2 0 2 4; EvTx false; EvTx false; EvTx false; EvTx false].
+Proof. vm_compute. repeat split; reflexivity. Qed.
+
 (* non-vacuity: the hypotheses of the theorems above are met by a concrete history in which a
    verdict is reached with votes of distinct active validators, the stake drops by the penalty and
    the bounty program is credited *)
